@@ -35,6 +35,7 @@ pub struct FnSpec {
     pub rettype: Option<String>,
     pub generics: Option<String>,
     pub no_iter: bool,
+    pub method_map: Vec<(String, String)>, // per-function R-MAP renames (`@fn-method-map a => b`)
     pub opts: BTreeSet<String>,
     pub line: usize,
 }
@@ -346,6 +347,9 @@ pub fn parse(text: &str) -> Result<Unit, String> {
                     "may-panic" => { for k in a.split_whitespace() { f.may_panic.insert(k.parse().map_err(|_| format!("line {ln}: @may-panic K"))?); } }
                     "letsplit" => f.letsplit.extend(a.split_whitespace().map(String::from)),
                     "refop" => f.refop.extend(a.split_whitespace().map(String::from)),
+                    "fn-method-map" => {
+                        for l in full.lines() { if let Some((x, y)) = l.split_once("=>") { f.method_map.push((x.trim().to_string(), y.trim().to_string())); } }
+                    }
                     "no-canary" => f.no_canary.extend(a.split_whitespace().map(String::from)),
                     _ => return Err(format!("line {ln}: unknown directive @{sub}")),
                 }
